@@ -259,6 +259,22 @@ func (m *Manager) BlocksForHistory(history []types.BlockID, maxBlocks uint64) ([
 	return blocks, m.tipState.Index.Height - (attachHeight + maxBlocks), nil
 }
 
+// An InvalidBlockError reports which block failed validation, so that a caller
+// that submitted blocks obtained from several sources (e.g. the syncer's
+// parallel download) can tell whose block it was.
+type InvalidBlockError struct {
+	Index types.ChainIndex
+	Err   error
+}
+
+// Error implements error.
+func (e *InvalidBlockError) Error() string {
+	return fmt.Sprintf("block %v is invalid: %v", e.Index, e.Err)
+}
+
+// Unwrap returns the validation error.
+func (e *InvalidBlockError) Unwrap() error { return e.Err }
+
 // AddBlocks ingests a chain of blocks. If the blocks are valid, the chain they
 // belong to may become the new best chain, triggering a reorg.
 func (m *Manager) AddBlocks(blocks []types.Block) error {
@@ -294,7 +310,7 @@ func (m *Manager) AddBlocks(blocks []types.Block) error {
 		if b.Timestamp.After(cs.MaxFutureTimestamp(time.Now())) {
 			return ErrFutureBlock
 		} else if err := consensus.ValidateOrphan(cs, b); err != nil {
-			return fmt.Errorf("block %v is invalid: %w", types.ChainIndex{Height: cs.Index.Height + 1, ID: bid}, err)
+			return &InvalidBlockError{Index: types.ChainIndex{Height: cs.Index.Height + 1, ID: bid}, Err: err}
 		}
 		ancestorTimestamp, ok := m.store.AncestorTimestamp(b.ParentID)
 		if !ok {
@@ -437,7 +453,7 @@ func (m *Manager) applyTip(index types.ChainIndex) error {
 		if err := m.overwriteExpirations(b, bs); err != nil {
 			return fmt.Errorf("failed to overwrite expiring file contract order in block %v: %w", index, err)
 		} else if err := consensus.ValidateBlock(m.tipState, b, *bs); err != nil {
-			return fmt.Errorf("block %v is invalid: %w", index, err)
+			return &InvalidBlockError{Index: index, Err: err}
 		}
 		ancestorTimestamp, ok := m.store.AncestorTimestamp(b.ParentID)
 		if !ok {
